@@ -3,6 +3,7 @@ package rules
 import (
 	"go/ast"
 	"go/token"
+	"go/types"
 
 	"gbcheck/internal/prog"
 )
@@ -29,6 +30,8 @@ func init() {
 			{"C04.L1", "q", "shared: checkAndSet critical section", c04l1},
 			{"C01.R6", "q", "incr flag constant agreement", c01r6},
 			{"C01.R7", "q", "every client revision arbitrated", c01r7},
+			{"C01.R9", "q", "explicit revisions compared by absolute value", c01r9},
+			{"C04.L5", "q", "shared: flush writes the file before detaching from the buffer", c04l5},
 			{"C01.R8", "t", "discovery: every caller of HTree.set/hintMgr.set passes a position from an append, a lookup or a hint item", c01r8},
 		},
 	})
@@ -644,5 +647,89 @@ func c01r8(c *Ctx) {
 			}
 			c.check(okAll, R, f.Key+": "+short(key)+" position provenance", call.Pos(), "position flows from an append, a lookup or a hint item", "position argument has an unexpected origin ("+why+")")
 		}
+	}
+}
+
+// isAbsFunc: f returns -n for n < 0 and n otherwise.
+func isAbsFunc(f *prog.Func) bool {
+	if f == nil || f.Param(0) == nil || f.Param(1) != nil {
+		return false
+	}
+	info := f.Info()
+	neg, pos := false, false
+	for _, rs := range f.CFG().Returns() {
+		if len(rs.Results) != 1 {
+			continue
+		}
+		r := prog.Unparen(rs.Results[0])
+		if u, ok := r.(*ast.UnaryExpr); ok && u.Op == token.SUB && prog.ObjOf(info, u.X) == f.Param(0) {
+			for _, a := range f.GuardsAt(rs) {
+				if prog.AtomCmp(a, token.LSS, prog.IsObj(info, f.Param(0)), prog.IsIntConst(info, 0)) {
+					neg = true
+				}
+			}
+		}
+		if prog.ObjOf(info, r) == f.Param(0) {
+			pos = true
+		}
+	}
+	return neg && pos
+}
+
+func c01r9(c *Ctx) {
+	const R = "C01.R9"
+	f := c.fn(R, "store.Bucket.checkAndUpdateVerison")
+	if f == nil {
+		return
+	}
+	info := f.Info()
+	oldv, ver := f.Param(0), f.Param(1)
+	n := 0
+	for _, rs := range f.CFG().Returns() {
+		if len(rs.Results) != 2 {
+			continue
+		}
+		if b, isC := prog.ConstBool(info, rs.Results[1]); !isC || b {
+			continue
+		}
+		n++
+		// the rejecting comparison must be on absolute values of both versions
+		okAbs, raw := false, false
+		for _, a := range f.GuardsAt(rs) {
+			if a.Y == nil {
+				continue
+			}
+			absOf := func(e ast.Expr, v types.Object) bool {
+				call, ok := prog.Unparen(e).(*ast.CallExpr)
+				if !ok || len(call.Args) != 1 || prog.ObjOf(info, call.Args[0]) != v {
+					return false
+				}
+				return isAbsFunc(c.P.F(prog.CalleeKey(info, call)))
+			}
+			if (absOf(a.X, ver) && absOf(a.Y, oldv)) || (absOf(a.X, oldv) && absOf(a.Y, ver)) {
+				okAbs = true
+			}
+			if (prog.ObjOf(info, a.X) == ver && prog.ObjOf(info, a.Y) == oldv) || (prog.ObjOf(info, a.X) == oldv && prog.ObjOf(info, a.Y) == ver) {
+				raw = true
+			}
+		}
+		switch {
+		case okAbs:
+			c.ok(R, f.Key+": explicit revision rejected unless larger in absolute value", c.pos(rs), "abs(ver) vs abs(oldv)")
+		case raw:
+			c.viol(R, f.Key+": explicit revision rejected unless larger in absolute value", c.pos(rs), "the arbitration compares the signed versions instead of their absolute values: over a tombstone (negative stored version) any positive explicit revision is accepted, so a stale sync write resurrects a deleted key with a version that goes backwards")
+		default:
+			c.undec(R, f.Key+": explicit revision rejected unless larger in absolute value", "the rejecting comparison is neither on abs(ver)/abs(oldv) nor on the raw versions: arbitration mechanism not recognised")
+		}
+		// the version handed back on rejection must not be negative: callers key the release of the payload on its sign (C12)
+		v, isC := prog.ConstInt(info, rs.Results[0])
+		if c.Prop != "C12" {
+			continue
+		}
+		c.check(isC && v >= 0, "C12.R8", f.Key+": rejected revision reports a non-negative version", c.pos(rs), "constant >= 0",
+			"on rejection checkAndUpdateVerison hands back a version that can be negative (e.g. the stored tombstone's); checkAndSet assigns it to v.Ver and its deferred release is keyed on v.Ver >= 0, so the rejected payload's SetData unit and buffer are never released")
+	}
+	if n == 0 {
+		c.undec(R, f.Key, "no rejecting return found")
 	}
 }
